@@ -41,8 +41,8 @@ CLAIMED = {
          T + "end-of-block totality under accepted-parameter fuzzing and long halts"),
  "C18": ("every schedule is executed twice from genesis; the second run performs export -> delete every module key -> import -> export on its real state at the marked block boundaries (second export must equal the first byte for byte) and the two runs' observables (results, errors, balances, assets, positions, pending entries, staking view, weight snapshots, query answers) are compared step by step for the rest of the schedule",
          T + "lock-step differential of original vs re-imported run"),
- "C19": ("every block is executed on two sibling branches of the committed state and then for real: per-step results, event lists and the raw KV content of the alliance, bank, staking, distribution, slashing and mint stores must be byte-identical; every 8th schedule is re-executed in fresh processes at GOMAXPROCS 1 and 16 and per-block app hashes compared; crash before commit must reproduce the app hash; a go/ast tripwire over the module's non-test sources (range over map, time.Now, math/rand, go statements, unsafe, %p) is supplementary and not the basis of the level",
-         T + "sibling-branch and cross-process re-execution with byte comparison; static tripwire as supplement"),
+ "C19": ("every block is executed on two sibling branches of the committed state and then for real: per-step results, event lists and the raw KV content of the alliance, bank, staking, distribution, slashing and mint stores must be byte-identical; every 8th schedule is re-executed in fresh processes at GOMAXPROCS 1 and 16 and per-block app hashes compared; crash before commit must reproduce the app hash; a go/ast scan of the module's non-test sources (range over map, time.Now, math/rand, go statements, unsafe, %p) only prints informational notes and never decides the check",
+         T + "sibling-branch and cross-process re-execution with byte comparison"),
  "C20": ("every unbonding, redelegation and delegation query (all filter combinations, paginated with limits 1/2/3 and unpaginated) and the contract bindings are compared with an independent raw-store enumeration after every step; reported balances are probed for undelegatability on discarded branches",
          T + "query answers vs raw-store reference enumeration after every step"),
 }
